@@ -399,6 +399,13 @@ func (m *vestMachine) actSend() {
 		m.rejectedAfterImplicitWithdraw++
 	}
 	if m.on["C08"] {
+		// every documented precondition holds => the send must be accepted (in particular the exact remainder)
+		if !res.OK() && ps != nil && !amt.IsNil() && !amt.IsNegative() && amt.LTE(avail) && !toExisted && !to.Equals(owner) &&
+			!m.v.App.BankKeeper.BlockedAddr(to) {
+			if _, ok := m.vtype(ps.VType); ok {
+				m.fail("send of %s from pool %q holding %s to the fresh address %s was rejected: %v %v", amt, pool, avail, to, res.Err, res.Panic)
+			}
+		}
 		if res.OK() && ps != nil && amt.GT(avail) {
 			m.fail("send of %s from pool %q holding %s (after the implicit withdrawal) was accepted", amt, pool, avail)
 		}
